@@ -279,6 +279,9 @@ func validateHandlerSteps(rc *Run, g *genEvalResult, every int, prop string) err
 		}
 		evaluations++
 		all = append(all, steps...)
+		if len(all) >= rc.Pick(40000, 60000) { // TLC judges every step by re-evaluating it: bound the trace
+			break
+		}
 	}
 	if len(all) == 0 {
 		return machinery("handler tracing recorded no step (%d evaluations, %d not aligned)", evaluations, notAligned)
